@@ -288,7 +288,18 @@ def run_pairs(ctx, binary, exe, lines, env=None, timeout=900):
             dl.append(l + " abort=" + io[len("abort:"):].replace(" ", "_"))
         else:
             dl.append(l + " " + io)
-    rc, model, err = ctx.run_model(exe, dl, timeout=timeout)
+    import subprocess
+    try:
+        rc, model, err = ctx.run_model(exe, dl, timeout=timeout)
+    except subprocess.TimeoutExpired:
+        # a slow model driver is an observation about the case, not a crash of the check: find the slow case(s)
+        rc, model, err = 0, [], ""
+        for one in dl:
+            try:
+                r1, m1, e1 = ctx.run_model(exe, [one], timeout=120)
+                model.append(m1[0] if (r1 == 0 and m1) else "res=BROKEN:model-driver-failed rc=%s" % r1)
+            except subprocess.TimeoutExpired:
+                model.append("res=BROKEN:model-timeout (model driver exceeded 120 s on this case)")
     if rc != 0 or len(model) != len(lines):
         return None, "rc=%s %s" % (rc, err[-400:])
     out = []
@@ -398,7 +409,12 @@ def classify(io, v):
     return "broken", "driver:" + res.split(":")[0], v["_line"]
 
 
-def generic_correspond(ctx, harness_src, exe, prop, plan_fn, build_line, label, what_text, min_points, batch=40, budget_s=60):
+SKIP_LIMIT = 1.0 / 3      # a case class whose skip rate exceeds this is not exercised: reported as a broken tie
+MIN_JUDGED = 4            # fewer judged cases than this in a planned class (after truncation) is reported as broken
+
+
+def generic_correspond(ctx, harness_src, exe, prop, plan_fn, build_line, label, what_text, min_points, batch=40, budget_s=75,
+                       pre_fn=None, stat_fn=None):
     import os
     import time
     binary, routines_ok, log = build_with_fallback(ctx, harness_src)
@@ -472,10 +488,17 @@ def generic_correspond(ctx, harness_src, exe, prop, plan_fn, build_line, label, 
                 l = l.strip()
                 if l.startswith("op="):
                     replay_line(l)
+    if pre_fn:
+        pre_fn(ctx, binary)
     specs = plan_fn(ctx, ctx.rng, quick)
     if not routines_ok:
         ctx.stat("routine-level-cases-dropped", len([s for s in specs if s["op"] != "embed"]))
         specs = [s for s in specs if s["op"] == "embed"]
+    # shuffled so that a truncation under the time budget never removes a whole class / method
+    specs = vlib.SplitMix64(ctx.seed * 7919 + 17).shuffle(specs)
+    planned, judged, skipped = {}, {}, {}
+    for sp in specs:
+        planned[label(sp)] = planned.get(label(sp), 0) + 1
     reported = set()
     for i in range(0, len(specs), batch):
         chunk = specs[i:i + batch]
@@ -489,6 +512,12 @@ def generic_correspond(ctx, harness_src, exe, prop, plan_fn, build_line, label, 
             N = len(spec["pts"])
             ctx.count(line, N >= 6 and cls in ("ok", "fail", "broken"))
             ctx.stat("case:" + label(spec))
+            if cls == "skip":
+                skipped[label(spec)] = skipped.get(label(spec), 0) + 1
+            else:
+                judged[label(spec)] = judged.get(label(spec), 0) + 1
+            if stat_fn:
+                stat_fn(ctx, spec, line, io, v)
             ctx.stat("verdict:" + cls + ((":" + sig) if cls == "skip" else ""))
             ctx.stat("range:" + ("shuffled-subset-among-decoys" if spec.get("dseed") is not None else "identity"))
             for key in ("kern", "kind", "metric", "nm", "decade", "t", "rot"):
@@ -513,6 +542,19 @@ def generic_correspond(ctx, harness_src, exe, prop, plan_fn, build_line, label, 
                 continue
             reported.add(key)
             report(spec, line, io, v)
-        if quick and time.time() - t_built > budget_s:
-            ctx.extra["truncated_after_cases"] = i + batch
+        if quick and time.time() - t_built > budget_s and i + batch < len(specs):
+            ctx.extra["truncated"] = {"after_cases": i + batch, "planned": len(specs), "budget_s": budget_s}
+            ctx.log("TRUNCATED by the time budget (%d s) after %d of %d planned cases" % (budget_s, i + batch, len(specs)))
             break
+    # accountability: every planned class must have been judged, and must not mostly skip
+    ctx.extra["per_class"] = {k: {"planned": planned[k], "judged": judged.get(k, 0), "skipped": skipped.get(k, 0)} for k in sorted(planned)}
+    for k in sorted(planned):
+        j, sk = judged.get(k, 0), skipped.get(k, 0)
+        if j < min(MIN_JUDGED, planned[k]):
+            ctx.broken("coverage:" + k, "correspondence %s, case class %s" % (harness_src, k),
+                       "only %d of %d planned cases of class %s were judged (%d skipped%s): the tie is not exercised for this class"
+                       % (j, planned[k], k, sk, ", run truncated by the time budget" if "truncated" in ctx.extra else ""))
+        elif j + sk >= 12 and sk > SKIP_LIMIT * (j + sk):
+            ctx.broken("skip-rate:" + k, "correspondence %s, case class %s" % (harness_src, k),
+                       "%d of %d cases of class %s were skipped (limit %d %%; clean-tree rate <= 13 %%): the tie is not exercised"
+                       % (sk, j + sk, k, int(SKIP_LIMIT * 100)))
